@@ -104,6 +104,37 @@ def source_parity(ctx, rep, clause):
        f'read by one calculator only: {extra}', program.func(MASS).loc(), clause)
 
 
+def default_carrier_guard(ctx, rep, clause):
+    """the composition calculator treats a given adduct list as the complete list of charge carriers and adds the
+    default carriers only when none is given; adjust_mass must take its default-protonation branch under the same
+    condition -- a test of `charge_adducts` against None and nothing else"""
+    from ..poly import PathEval
+    program = ctx.program
+    for fq in ('peptacular.mass_calc:adjust_mass', SEQ_COMP, COMP_MASS):
+        f = program.find_func(fq)
+        if f is None or f.param('charge_adducts') is None and f.param('adducts') is None:
+            continue
+        pname = 'charge_adducts' if f.param('charge_adducts') is not None else 'adducts'
+        for x in walk_own(f.node):
+            t = x.test if isinstance(x, (ast.If, ast.IfExp, ast.While)) else None
+            if t is None:
+                continue
+            if not any(isinstance(y, ast.Name) and y.id == pname for y in ast.walk(t)):
+                continue
+            parts = t.values if isinstance(t, ast.BoolOp) else [t]
+            for part in parts:
+                if not any(isinstance(y, ast.Name) and y.id == pname for y in ast.walk(part)):
+                    continue
+                txt, _pol = PathEval.canon(part)
+                ok = txt in (f'{pname} is None', f'{pname} is not None', pname, f'isinstance({pname}, str)',
+                             f'isinstance({pname}, Mod)', f'isinstance({pname}, list)', f'len({pname}) == 0')
+                ob(rep, 'SIB-guard', f.fq, f'the adduct list is tested only for presence / type (`{txt}`)', ok,
+                   'given list = complete list of carriers, None = default carriers',
+                   f'`{norm_stmt(part)}` makes the choice between default and explicit charge carriers depend on the '
+                   f'*value* of the adduct list: the mass calculator and the composition calculator (which takes a '
+                   f'given list as complete) count different carriers for that value', f.loc(x), clause)
+
+
 def multiplier_parity(ctx, rep, clause):
     an, program = ctx.analyzer, ctx.program
     for fq in ('peptacular.mass_calc:mod_mass', 'peptacular.chem.chem_calc:mod_comp',
@@ -221,10 +252,14 @@ def check(ctx, rep):
     n = add_fwd(rep, obs, 'C03d')
     rep.floor('FWD', 'forwarding sites between the two calculators', n, 20)
     source_parity(ctx, rep, 'C03b')
+    default_carrier_guard(ctx, rep, 'C03b')
+    from .common import self_accumulation_rule
+    self_accumulation_rule(ctx, rep, 'C03b', ('peptacular.chem.chem_calc', 'peptacular.mass_calc'))
     multiplier_parity(ctx, rep, 'C03e')
     unwrap_sites(ctx, rep, 'C03e')
     definition_pairing(ctx, rep, 'C03f')
     C10.dispatch_parity(ctx, rep, 'C03h')
     C10.ambiguous_tokens(ctx, rep, 'C03g')
+    C02.isotope_selection(ctx, rep, 'C03f')
     from .common import memo_rule
     memo_rule(ctx, rep, 'C03i', ('peptacular.mass_calc', 'peptacular.chem.chem_calc', 'peptacular.chem.chem_util'))
